@@ -9,6 +9,7 @@ import (
 	"golang.org/x/tools/go/ssa"
 
 	"utilcheck/flow"
+	"utilcheck/lang"
 	"utilcheck/pred"
 )
 
@@ -285,6 +286,31 @@ func ruleSuffix(e *Env, rule string) {
 	}
 	const ts, tl = `strings.TrimLeft(s,"0")`, `strings.TrimLeft(l,"0")`
 	numericByLength := false
+	// the "all-digit" atom is a match against a regexp global: its language must be the digit strings (empty included)
+	digitGlobals := map[string]bool{}
+	defer func() {
+		var names []string
+		for g := range digitGlobals {
+			names = append(names, g)
+		}
+		sort.Strings(names)
+		for _, g := range names {
+			if !strings.HasPrefix(g, "*sem.") {
+				e.S.Unk(rule, site, "digit test "+g, "the all-digit test does not match against a regexp global of the package", e.Pos(suf))
+				continue
+			}
+			pat, ok := e.pattern(rule, "sem", strings.TrimPrefix(g, "*sem."))
+			if !ok {
+				continue
+			}
+			sp, ds, err := lang.Build(pat, `^[0-9]*$`)
+			if err != nil {
+				e.S.Unk(rule, "sem."+strings.TrimPrefix(g, "*sem."), "language", err.Error(), "")
+				continue
+			}
+			e.langEqual(rule, "sem."+strings.TrimPrefix(g, "*sem."), "language", sp, ds[0], ds[1], g[1:], "digit strings [0-9]*")
+		}
+	}()
 	defer func() {
 		// digit counts of the remainders order the numbers only if the remainders are whole digit runs
 		if numericByLength && rule == "C06.numorder" {
@@ -302,6 +328,9 @@ func ruleSuffix(e *Env, rule string) {
 		lenOrd, hasLen := 0, false
 		for k, v := range lf.Assign {
 			if strings.HasPrefix(k, "(*regexp.Regexp).MatchString(") {
+				if i := strings.Index(k, ","); i > 0 {
+					digitGlobals[k[len("(*regexp.Regexp).MatchString("):i]] = true
+				}
 				nm++
 				if v != 0 {
 					bothDigits = false
